@@ -240,6 +240,9 @@ def _history_cases():
         ('a valid AIGP on a session without the aigp capability', _attr(0x80, 26, b'\x01\x00\x0b' + (5).to_bytes(8, 'big'))),
     ):
         cases.append(('discard', name, v4, W.update_body(p0, base + bad, p1), {'10.0.0.0/24'}, {'10.0.1.0/24'}))
+    # treat-as-withdraw class: the routes of the UPDATE are WITHDRAWN -- a route stored earlier for the same prefix goes
+    cases.append(('taw', 'MED of 3 octets on a re-announcement of the stored prefix', v4, W.update_body(b'', base + _attr(0x80, 4, bytes(3)), p0), {'10.0.0.0/24'}, set()))
+    cases.append(('taw', 'ORIGIN with value 9, next to an explicit withdraw of the stored prefix', v4, W.update_body(p0, _attr(0x40, 1, b'\x09') + aspath + nh, p1), {'10.0.0.0/24'}, set()))
     # the MP attributes themselves malformed at header level, and a header overrun in front of MP_REACH_NLRI
     cases.append(('mp', 'MP_REACH_NLRI with the transitive bit set', v6, W.update_body(b'', origin + aspath + med20 + _attr(0xC0, 14, mp_value), b''), {'2001:db8::/32'}, set()))
     cases.append(('mp', 'MP_REACH_NLRI of length zero', v6, W.update_body(b'', origin + aspath + med20 + _attr(0x80, 14, b''), b''), {'2001:db8::/32'}, set()))
@@ -277,6 +280,11 @@ def _history_case(k):
             want = (set(before) - gone) | kept
             if set(after) != want:
                 return {'what': f'{name} (attribute discard): only the attribute is dropped and the rest kept -- Adj-RIB-In holds {sorted(after)}, the rest of the UPDATE (withdraw {sorted(gone)}, announce {sorted(kept)}) gives {sorted(want)}', 'input': inp, 'api_events': str(ev)[:300]}
+            return None
+        if cls_ == 'taw':
+            left = set(after) & gone
+            if left or (set(after) - set(before)):
+                return {'what': f'{name} (treat-as-withdraw): its routes are reported as withdrawn -- Adj-RIB-In still holds {sorted(after)}', 'input': inp, 'api_events': str(ev)[:300]}
             return None
         if cls_ == 'mp':
             if set(after) & gone and after == before and not any(e.get('withdraw') for e in ev):
